@@ -214,6 +214,23 @@ def run(ctx: Ctx) -> None:
                             ctx.violation("C13/frame_result_depends_on_earlier_evaluations", dict(scn.info, frame_id=frame_id, probe=(probe_k, probe_how), prefix=seq, first_difference=diff[:400]), tap="comparator")
                     if narrower_before:
                         ctx.count("C13.reevaluated_after_narrower")
+                    # ---- tracking scores: same result given the same immediate predecessor
+                    if task == "tracking" and nF >= 2:
+                        j, k2 = r.randrange(nF), r.randrange(nF)
+                        f1 = Run(scn, frame_id, ds)
+                        f1.add(j)
+                        d1 = compare.frame_digest(f1.add(k2))
+                        f2 = Run(scn, frame_id, ds)
+                        for _ in range(r.randint(1, 4)):
+                            f2.add(r.randrange(nF), critical=variant(scn, 0, "own") if False else None)
+                        f2.add(j)
+                        d2 = compare.frame_digest(f2.add(k2))
+                        ctx.count("C13.tracking_predecessor_comparisons")
+                        d1["metrics"].pop("num_gt", None)
+                        d2["metrics"].pop("num_gt", None)
+                        dd = compare.diff(d1, d2, 1e-12)
+                        if dd is not None:
+                            ctx.violation("C13/tracking_result_depends_on_more_than_the_previous_frame", dict(scn.info, frame_id=frame_id, pair=(j, k2), first_difference=dd[:400]), tap="comparator")
                     # ---- one-frame scene reproduces the frame's detection score
                     one = Run(scn, frame_id, ds)
                     res = one.add(probe_k)
